@@ -18,7 +18,7 @@ func init() {
 		Assumptions: []string{"field kinds are representatives of wire classes, not every leaf"},
 		Work:        c03Work,
 		Post: func(a *mc.Agg) []string {
-			return needDims(a, "removed:1", "removed:2", "reordered", "added", "nest:top", "nest:field", "nest:elem", "nest:mapval", "nest:ptr", "highest-index-first")
+			return needDims(a, "removed:1", "removed:2", "reordered", "added", "nest:top", "nest:field", "nest:elem", "nest:mapval", "nest:ptr", "highest-index-first", "time-payload")
 		},
 	})
 }
@@ -60,6 +60,9 @@ func c03Work(c *mc.Ctx) {
 		n = 4
 	}
 	unit := 0
+	if c.Owns(0) {
+		c03TimePayload(c, kinds)
+	}
 	var tuple []int
 	var rec func()
 	rec = func() {
@@ -209,6 +212,65 @@ func c03Tuple(c *mc.Ctx, kinds []c03Kind, tuple []int, hi bool) {
 		}
 	}
 	c.Outcome("tuple-done")
+}
+
+// c03TimePayload: a time is a two-field message (seconds = 1, nanoseconds = 2); data written by a
+// version whose timestamp message has grown further fields (of every kind, in every position)
+// must still decode, the unknown fields being skipped by their own wire type. Both time codecs.
+func c03TimePayload(c *mc.Ctx, kinds []c03Kind) {
+	if !c.Begin(`{"S":"time payload with unknown fields"}`) {
+		return
+	}
+	c.AddEvals(-1)
+	c.Dim("time-payload")
+	L := ref.Leaf
+	for _, cfg := range []ref.Cfg{{}, {ProtoTime: true}} {
+		secT, nsT := L(ref.KInt64), L(ref.KInt32)
+		if cfg.ProtoTime {
+			secT, nsT = L(ref.KUint64), L(ref.KUint32)
+		}
+		p := NewPlenc(cfg)
+		reader := ref.Struct(ref.Fld(1, L(ref.KTime)), ref.Fld(2, L(ref.KInt)))
+		for ki, k := range kinds {
+			for _, pos := range []int{0, 1, 2} { // where the extra field is declared: before, between, after
+				for xi, xv := range k.vals {
+					for _, tv := range []ref.V{{Sec: 1600000000, Ns: 5}, {Sec: 1, Ns: 0}, {Sec: 0, Ns: 999999999}} {
+						fs := []ref.F{{Name: "S", Index: 1, T: secT}, {Name: "N", Index: 2, T: nsT}}
+						vs := []ref.V{{U: uint64(tv.Sec)}, {U: uint64(tv.Ns)}}
+						extra := ref.F{Name: "X", Index: 3 + ki%3*7, T: k.t}
+						fs = append(fs[:pos:pos], append([]ref.F{extra}, fs[pos:]...)...)
+						vs = append(vs[:pos:pos], append([]ref.V{xv}, vs[pos:]...)...)
+						stamp := ref.Struct(fs...)
+						writer := ref.Struct(ref.Fld(1, stamp), ref.Fld(2, L(ref.KInt)))
+						c.AddEvals(1)
+						c.Count("states", 1)
+						c.Ops(2)
+						if xi > 0 {
+							c.NonTrivialKey(fmt.Sprintf("tp%v%d%d%d%d", cfg, ki, pos, xi, tv.Sec))
+						}
+						sig := fmt.Sprintf("time-payload|%s|%s|", cfg, k.name)
+						c.Guard(sig, func() {
+							data, err := p.Marshal(nil, ref.ToReflect(writer, ref.V{E: []ref.V{{E: vs}, {U: 77}}}).Addr().Interface())
+							if err != nil {
+								c.Violation(sig+"marshal-error", err.Error())
+								return
+							}
+							out := reflect.New(reader.Reflect())
+							if err := p.Unmarshal(data, out.Interface()); err != nil {
+								c.Violation(sig+"unmarshal-error", fmt.Sprintf("timestamp message %s value %s data %s: %v", stamp, ref.Str(stamp, ref.V{E: vs}), hx(data), err))
+								return
+							}
+							got := ref.FromReflect(reader, out.Elem())
+							if got.E[0].Sec != tv.Sec || got.E[0].Ns != tv.Ns || got.E[1].U != 77 {
+								c.Violation(sig+"mismatch", fmt.Sprintf("timestamp message %s value %s data %s: decoded %s", stamp, ref.Str(stamp, ref.V{E: vs}), hx(data), ref.Str(reader, got)))
+							}
+						})
+					}
+				}
+			}
+		}
+	}
+	c.Outcome("time-payload-done")
 }
 
 func permuteInts(a []int, f func([]int)) {
